@@ -10,8 +10,10 @@ MODEL_NAMES = set()
 
 
 def deref(v):
-    while isinstance(v, Ref): v = v.get()
-    return v
+    while True:
+        if isinstance(v, Ref): v = v.get()
+        elif isinstance(v, M.ChoiceV): v = M.force(v)
+        else: return v
 
 
 def install(ex):
@@ -46,7 +48,7 @@ def install(ex):
         if z3.is_expr(x) or z3.is_expr(y): return truth(x == y)
         return key_repr(x) == key_repr(y)
     def model(callee, a):
-        c = strip_gen(callee)
+        c = strip_gen(callee).replace("std::collections::", "")
         if "Range<" in c and " as Iterator>::" in c and not c.endswith("::next") and a and isinstance(deref(a[0]), StructV) and deref(a[0]).ty == "Range":
             r0 = deref(a[0]); a = [mk_iter(list(range(r0.fields[0], r0.fields[1])))] + list(a[1:])
         r = _model(c, callee, a)
@@ -415,9 +417,48 @@ def install(ex):
         if c in ("core::cmp::max", "std::cmp::max"): return a[0] if cmp_val(a[0], a[1]) > 0 else a[1]
         if c in ("core::cmp::min", "std::cmp::min"): return a[0] if cmp_val(a[0], a[1]) <= 0 else a[1]
         if re.match(r"^<(usize|i64|isize|u64|bool|f64) as Clone>::clone$", c): return deref(a[0])
-        if c.startswith("PathBuf::") or c.startswith("Path::") or "as AsRef<Path>>" in c or "as AsRef<OsStr>>" in c or c.startswith("std::path::"):
+        mnum = re.match(r"^core::num::<impl (usize|u64|u32|i64|isize|i32)>::(saturating_sub|saturating_add|wrapping_add|wrapping_sub|checked_sub|checked_add|max|min|pow|abs)$", c)
+        if mnum:
+            x = deref(a[0]); y = deref(a[1]) if len(a) > 1 else None; op = mnum.group(2); unsigned = mnum.group(1).startswith("u")
+            if not isinstance(x, int) or (y is not None and not isinstance(y, int)):
+                if op == "saturating_sub" and unsigned: return z3.If(x - y < 0, 0, x - y)
+                raise Unsupported(c + " on symbolic values")
+            if op == "saturating_sub": return max(x - y, 0) if unsigned else x - y
+            if op in ("saturating_add", "wrapping_add"): return x + y
+            if op == "wrapping_sub": return x - y
+            if op == "checked_sub": return opt(x - y) if (x - y >= 0 or not unsigned) else opt()
+            if op == "checked_add": return opt(x + y)
+            if op == "max": return max(x, y)
+            if op == "min": return min(x, y)
+            if op == "pow": return x ** y
+            if op == "abs": return abs(x)
+        if c.endswith("library_name"):
+            n = deref(a[0]); return opt(n) if n in ("common", "container", "dict", "list", "math", "maybe", "preamble", "set", "unsafe") else opt()
+        if c.endswith("library_source"):
+            n = deref(a[0]); return opt("<std source of %s>" % n) if n in ("common", "container", "dict", "list", "math", "maybe", "preamble", "set", "unsafe") else opt()
+        if c in ("Path::parent", "std::path::Path::parent", "Path::file_stem", "Path::file_name", "Path::extension", "Path::to_str", "OsStr::to_str", "std::ffi::OsStr::to_str"):
+            return opt(Opaque("path"))
+        if c.startswith("PathBuf::") or c.startswith("Path::") or "as AsRef<Path>>" in c or "as AsRef<OsStr>>" in c or c.startswith("std::path::") or c.startswith("OsStr::"):
             return Opaque("path")
-        if re.match(r"^<.* as Into<.*>>::into$", c) or re.match(r"^<.* as From<.*>>::from$", c):
+        mtrim = re.match(r"^core::str::<impl str>::(trim_start_matches|trim_end_matches|trim|trim_start|trim_end|strip_prefix|strip_suffix)$", c)
+        if mtrim:
+            s_ = deref(a[0]); what = mtrim.group(1)
+            if not isinstance(s_, str): return s_
+            if what == "trim": return s_.strip()
+            if what == "trim_start": return s_.lstrip()
+            if what == "trim_end": return s_.rstrip()
+            p_ = deref(a[1])
+            if not isinstance(p_, str): raise Unsupported(c)
+            if what == "trim_start_matches":
+                while p_ and s_.startswith(p_): s_ = s_[len(p_):]
+                return s_
+            if what == "trim_end_matches":
+                while p_ and s_.endswith(p_): s_ = s_[:-len(p_)]
+                return s_
+            if what == "strip_prefix": return opt(s_[len(p_):]) if s_.startswith(p_) else opt()
+            return opt(s_[:-len(p_)]) if s_.endswith(p_) else opt()
+        if re.match(r"^<.* as (std::convert::)?Into<.*>>::into$", c) or re.match(r"^<.* as (std::convert::)?From<.*>>::from$", c):
+            if "PathBuf" in c.split(" as ")[0]: return Opaque("path")
             return a[0]
         if re.match(r"^<.* as (std::convert::)?AsRef<.*>>::as_ref$", c): return a[0]
         if re.match(r"^<.* as Borrow<.*>>::borrow$", c): return a[0]
